@@ -15,7 +15,7 @@ ITEMS = {"kids_items": 13, "m_items": 14, "s_items": 15}
 
 
 def run_case(case):
-    w = base.World(case["npool"])
+    w = base.World(case["npool"], bool(case.get("falsy")))
     root = w.pool[case["root"]]
     lcalls, ocalls = [], []
 
@@ -27,22 +27,50 @@ def run_case(case):
         c = w.convert((0, case["root"]), event)
         ocalls.append([999 if c[2] is None else c[2], c[3]])
 
+    class Watcher:
+        """second legacy registration for the same name (a bound method), removed by the first handler
+        during a notification round (re-entrant removal)"""
+        calls = 0
+
+        def second(self, obj, name, old, new):
+            self.calls += 1
+
+    watcher = Watcher()
+    st = {"armed": False, "reg2": False, "removed": False}
+    reentrant = case.get("reentrant")
+    deferred = bool(case.get("deferred"))
+    plain_legacy = legacy
+
+    def legacy(obj, name, old, new):    # noqa: F811
+        plain_legacy(obj, name, old, new)
+        if st["armed"] and st["reg2"] and not st["removed"]:
+            st["removed"] = True
+            root.on_trait_change(watcher.second, case["legacy"], remove=True, deferred=deferred)
+
     expr = None
     for g in case["graphs"]:
         e = base.build_expr(g)
         expr = e if expr is None else (expr | e)
     hist = []
     prev_heap = None
-    for op in case["ops"]:
+    for step, op in enumerate(case["ops"]):
         del lcalls[:]
         del ocalls[:]
+        watcher.calls = 0
+        st["armed"] = reentrant is not None and step in reentrant and op[0] == "Probe"
         out = "Ok"
         try:
             if op[0] == "Reg":
-                root.on_trait_change(legacy, case["legacy"], deferred=bool(case.get("deferred")))
+                root.on_trait_change(legacy, case["legacy"], deferred=deferred)
+                if reentrant is not None:
+                    root.on_trait_change(watcher.second, case["legacy"], deferred=deferred)
+                    st["reg2"] = True
                 root.observe(obs_handler, expr)
             elif op[0] == "Unreg":
-                root.on_trait_change(legacy, case["legacy"], remove=True, deferred=bool(case.get("deferred")))
+                root.on_trait_change(legacy, case["legacy"], remove=True, deferred=deferred)
+                if st["reg2"] and not st["removed"]:
+                    st["removed"] = True
+                    root.on_trait_change(watcher.second, case["legacy"], remove=True, deferred=deferred)
                 root.observe(obs_handler, expr, remove=True)
             else:
                 w.run_op(op)
@@ -50,7 +78,8 @@ def run_case(case):
             out = dlib.exn_name(e, EXN)
         heap = w.heap()
         hist.append({"out": out, "ocalls": [list(c) for c in ocalls], "lcalls": [list(c) for c in lcalls],
-                     "heap": None if heap == prev_heap else heap})
+                     "heap": None if heap == prev_heap else heap,
+                     "second": [bool(st["removed"] or not st["reg2"]), watcher.calls, len(lcalls)]})
         prev_heap = heap
     return hist
 
